@@ -476,12 +476,16 @@ Proof.
   - apply ingest_inv; exact I.
   - pose proof (digest_inv cfg false k s ex I) as H.
     destruct (digest cfg false k s) as [s' r]. exact H.
-  - pose proof (autophagy_inv cfg s ex I) as H.
+  - destruct (sweepable cfg s); [|exact I].
+    pose proof (autophagy_inv cfg s ex I) as H.
     destruct (autophagy cfg s) as [s' n]. exact H.
   - cbn [fst]. apply (Inv_same cfg _ s); [reflexivity..|exact I].
   - (* clear_recycling_bin: only the bin changes, and nothing is in it *)
     cbn [fst]. destruct I as [P1 P2 P3 P4 P5 P6 P7 P8 P9].
     constructor; try assumption. cbn [bin set_bin]. intros k v [].
+  - apply ingest_inv; exact I.
+  - (* digest(<not an integer>) raises: nothing changed *)
+    exact I.
 Qed.
 
 Lemma step_inv : forall cfg s o,
@@ -607,9 +611,12 @@ Proof.
   - pose proof (digest_queue cfg false k s) as Q.
     destruct (digest cfg false k s) as [s' r]. cbn [fst] in *. unfold qlen in *. rewrite Q.
     pose proof (after_take_le k (queue s)). lia.
-  - unfold autophagy, qlen in *. cbn [fst queue].
+  - destruct (sweepable cfg s); [|exact Hq].
+    unfold autophagy, qlen in *. cbn [fst queue].
     pose proof (filter_length_le (fresh cfg (now s)) (queue s)). lia.
   - exact Hq.
+  - exact Hq.
+  - apply ingest_bounded; assumption.
   - exact Hq.
 Qed.
 
@@ -690,6 +697,52 @@ Qed.
 
 Lemma step_total : forall cfg s o, exists s' r, step cfg s o = (s', r).
 Proof. intros cfg s o. destruct (step cfg s o) as [s' r]. eauto. Qed.
+
+(* ---- error paths (Part 1f) --------------------------------------------- *)
+
+(* which calls raise, exactly: digest(<not an integer>), and autophagy() over a
+   queue holding an item the retention comparison raises on; and a call that
+   raises leaves the object exactly as it was - queue, counters, recycling
+   bin, on_toxic log, and the ghost fates *)
+Lemma raising_call_proof : forall cfg s o,
+  (snd (step cfg s o) = RRaised <-> (o = DigestBad \/ (o = Autophagy /\ sweepable cfg s = false))) /\
+  (snd (step cfg s o) = RRaised -> fst (step cfg s o) = s).
+Proof.
+  intros cfg s o. destruct o; cbn [step fst snd];
+    try (split; [split; [discriminate|intros [H|[H _]]; discriminate]|discriminate]).
+  - (* digest(k) *)
+    destruct (digest cfg false k s) as [s' r]. cbn [snd].
+    split; [split; [discriminate|intros [H|[H _]]; discriminate]|discriminate].
+  - (* autophagy *)
+    destruct (sweepable cfg s) eqn:E.
+    + destruct (autophagy cfg s) as [s' n]. cbn [snd].
+      split; [split; [discriminate|intros [H|[_ H]]; discriminate]|discriminate].
+    + cbn [fst snd]. split; [split; auto|reflexivity].
+  - (* digest(<not an integer>) *)
+    split; [split; auto|reflexivity].
+Qed.
+
+(* ... so autophagy() raises exactly when some queued item cannot be compared *)
+Lemma sweepable_false : forall cfg s,
+  sweepable cfg s = false <-> exists it, In it (queue s) /\ comparable cfg it = false.
+Proof.
+  intros cfg s. unfold sweepable. split.
+  - intros H. induction (queue s) as [|x l IH]; cbn [forallb] in H; [discriminate|].
+    destruct (comparable cfg x) eqn:C.
+    + destruct (IH H) as (it & Hin & Hc). exists it. split; [right; exact Hin|exact Hc].
+    + exists x. split; [left; reflexivity|exact C].
+  - intros (it & Hin & Hc). destruct (forallb (comparable cfg) (queue s)) eqn:F; [|reflexivity].
+    rewrite forallb_forall in F. rewrite (F it Hin) in Hc. discriminate.
+Qed.
+
+Lemma raising_calls_proof : forall cfg s o,
+  (snd (step cfg s o) = RRaised <->
+     (o = DigestBad \/ (o = Autophagy /\ exists it, In it (queue s) /\ comparable cfg it = false))) /\
+  (snd (step cfg s o) = RRaised -> fst (step cfg s o) = s).
+Proof.
+  intros cfg s o. destruct (raising_call_proof cfg s o) as [A B]. split; [|exact B].
+  rewrite A. rewrite sweepable_false. reflexivity.
+Qed.
 
 (* ====================================================================== *)
 (* Part 1b: overlapping digest passes                                       *)
@@ -933,15 +986,19 @@ Lemma step_grows : forall cfg s o,
     (norep new \/ exists k, o = DigestOp k).
 Proof.
   intros cfg s o. destruct o; cbn [step].
-  - destruct (ingest_grows cfg t (now s + off) o s) as (n & G & N). exists n; auto.
-  - destruct (ingest_grows cfg FailedOp (now s) o s) as (n & G & N). exists n; auto.
-  - destruct (ingest_grows cfg Toxic (now s) o s) as (n & G & N). exists n; auto.
+  - destruct (ingest_grows cfg t (At (now s + off)) o s) as (n & G & N). exists n; auto.
+  - destruct (ingest_grows cfg FailedOp (At (now s)) o s) as (n & G & N). exists n; auto.
+  - destruct (ingest_grows cfg Toxic (At (now s)) o s) as (n & G & N). exists n; auto.
   - pose proof (digest_grows cfg false k s) as H. cbv zeta in H.
     destruct (digest cfg false k s) as [s' r]. destruct H as (G & _). cbn [fst].
     eexists. split; [exact G|right; eauto].
-  - destruct (autophagy_grows cfg s) as (n & G & N).
-    destruct (autophagy cfg s) as [s' m]. exists n; auto.
+  - destruct (sweepable cfg s).
+    + destruct (autophagy_grows cfg s) as (n & G & N).
+      destruct (autophagy cfg s) as [s' m]. exists n; auto.
+    + exists []. cbn [fst]. split; [reflexivity|left; constructor].
   - exists []. cbn [fst]. split; [reflexivity|left; constructor].
+  - exists []. cbn [fst]. split; [reflexivity|left; constructor].
+  - destruct (ingest_grows cfg t Odd o s) as (n & G & N). exists n; auto.
   - exists []. cbn [fst]. split; [reflexivity|left; constructor].
 Qed.
 
@@ -971,12 +1028,14 @@ Proof.
   destruct (step_grows cfg (c_base cs) o) as (new & G & N).
   destruct (CInv_grow cfg cs _ new G CI) as (B' & D' & O').
   destruct (step cfg (c_base cs) o) as [s' r] eqn:S. cbn [fst] in *.
-  destruct o as [t off out|out|out|k| |d0| ]; cbn [step] in S;
+  destruct o as [t off out|out|out|k| |d0| |t out| ]; cbn [step] in S;
+    try (match type of S with context [sweepable] =>
+           destruct (sweepable cfg (c_base cs)); [destruct (autophagy cfg (c_base cs)) as [sa na]|] end);
     try (inversion S; subst s' r; clear S;
          destruct N as [N|[k0 Hk]]; [|discriminate];
          constructor; cbn [c_base c_open c_done]; try assumption;
          unfold reported_ids; cbn [c_base c_open c_done];
-         rewrite (grows_rep_same _ _ _ G N); apply (ci_rep _ _ CI)).
+         try rewrite (grows_rep_same _ _ _ G N); apply (ci_rep _ _ CI)).
   - (* digest(k), atomic *)
     pose proof (digest_grows cfg false k (c_base cs)) as H. cbv zeta in H.
     destruct (digest cfg false k (c_base cs)) as [s1 r1]. inversion S; subst s' r; clear S.
@@ -1621,6 +1680,112 @@ Proof.
   intros g Hok fuel calls. unfold thread_prog.
   rewrite <- (app_nil_r (flat_map _ _)).
   rewrite (fbalanced_flat_map (compile g fuel) _ (fun x => compile_fbalanced g Hok fuel x)). reflexivity.
+Qed.
+
+(* ---- error paths: a raising call gives back every lock level it took ---- *)
+
+Lemma wb_release_all : forall r d q, wb (d + r) (repeat Rel r ++ q) = wb d q.
+Proof.
+  induction r as [|r IH]; intros d q; cbn [repeat app].
+  - rewrite Nat.add_0_r. reflexivity.
+  - rewrite Nat.add_succ_r. cbn [wb]. apply IH.
+Qed.
+
+(* from hold depth d + r, with r levels taken by this call so far *)
+Lemma unwind_wb_gen : forall p r, wb r p = true ->
+  forall n d q, wb (d + r) (firstn n p ++ repeat Rel (depth_after r (firstn n p)) ++ q) = wb d q.
+Proof.
+  induction p as [|i p IH]; intros r H n d q.
+  - rewrite firstn_nil. cbn [app depth_after]. apply wb_release_all.
+  - destruct n as [|n]; [cbn [firstn app depth_after]; apply wb_release_all|].
+    cbn [firstn app]. destruct i; cbn [wb depth_after] in *.
+    + rewrite <- Nat.add_succ_r. apply IH. exact H.
+    + destruct r as [|r]; [discriminate|]. rewrite Nat.add_succ_r. cbn [wb Nat.pred]. apply IH. exact H.
+    + apply IH. exact H.
+Qed.
+
+Lemma unwind_balanced : forall n p, wb 0 p = true -> balanced (unwind n p).
+Proof.
+  intros n p H d q. unfold unwind. rewrite <- app_assoc.
+  rewrite <- (Nat.add_0_r d) at 1. apply unwind_wb_gen. exact H.
+Qed.
+
+Lemma compile_wb : forall g fuel m, wb 0 (compile g fuel m) = true.
+Proof.
+  intros g fuel m. rewrite <- (app_nil_r (compile g fuel m)). rewrite compile_balanced. reflexivity.
+Qed.
+
+Lemma call_prog_balanced : forall g fuel c, balanced (call_prog g fuel c).
+Proof.
+  intros g fuel [m [n|]]; unfold call_prog; cbn [fst snd].
+  - apply unwind_balanced. apply compile_wb.
+  - apply compile_balanced.
+Qed.
+
+Lemma thread_prog_x_wb : forall g fuel calls, wb 0 (thread_prog_x g fuel calls) = true.
+Proof.
+  intros g fuel calls. unfold thread_prog_x.
+  rewrite <- (app_nil_r (flat_map _ _)).
+  rewrite (balanced_flat_map (call_prog g fuel) _ (fun x => call_prog_balanced g fuel x)). reflexivity.
+Qed.
+
+Lemma flat_release_all : forall r q, flat r (repeat Rel r ++ q) = flat 0 q.
+Proof. induction r as [|r IH]; intros q; cbn [repeat app flat]; [reflexivity|apply IH]. Qed.
+
+Lemma unwind_flat_gen : forall p r, flat r p = true ->
+  forall n q, flat r (firstn n p ++ repeat Rel (depth_after r (firstn n p)) ++ q) = flat 0 q.
+Proof.
+  induction p as [|i p IH]; intros r H n q.
+  - rewrite firstn_nil. cbn [app depth_after]. apply flat_release_all.
+  - destruct n as [|n]; [cbn [firstn app depth_after]; apply flat_release_all|].
+    cbn [firstn app]. destruct i; cbn [flat depth_after] in *.
+    + apply andb_true_iff in H. destruct H as [H0 H1]. apply Nat.eqb_eq in H0. subst r.
+      cbn [Nat.eqb andb]. apply IH. exact H1.
+    + destruct r as [|r]; [discriminate|]. cbn [Nat.pred]. apply IH. exact H.
+    + apply IH. exact H.
+Qed.
+
+Lemma call_prog_fbalanced : forall g, forallb (method_ok g) g = true ->
+  forall fuel c, fbalanced (call_prog g fuel c).
+Proof.
+  intros g Hok fuel [m [n|]]; unfold call_prog; cbn [fst snd].
+  - intros q. unfold unwind. rewrite <- app_assoc. apply unwind_flat_gen.
+    rewrite <- (app_nil_r (compile g fuel m)). rewrite (compile_fbalanced g Hok fuel m). reflexivity.
+  - apply compile_fbalanced. exact Hok.
+Qed.
+
+Lemma thread_prog_x_flat : forall g, forallb (method_ok g) g = true ->
+  forall fuel calls, flat 0 (thread_prog_x g fuel calls) = true.
+Proof.
+  intros g Hok fuel calls. unfold thread_prog_x.
+  rewrite <- (app_nil_r (flat_map _ _)).
+  rewrite (fbalanced_flat_map (call_prog g fuel) _ (fun x => call_prog_fbalanced g Hok fuel x)). reflexivity.
+Qed.
+
+(* threads calling any methods in any order, ANY of the calls raising at ANY
+   point of its program (the exception leaving through the `with` blocks it is
+   inside), never reach a configuration in which some thread is unfinished and
+   no thread can take a step: after a call that raised, the calls of every
+   other thread still get the lock *)
+Lemma error_paths_no_deadlock : forall k g,
+  no_self_deadlock k g && single_lock g = true ->
+  forall fuel (calls : nat -> list xcall) m,
+    mreach k (minit (fun i => thread_prog_x g fuel (calls i))) m ->
+    (exists i, m_code m i <> []) -> exists m', mstep k m m'.
+Proof.
+  intros k g H fuel calls m R U. apply andb_true_iff in H. destruct H as [H _].
+  eapply lock_machine_no_deadlock; [| |exact R|exact U].
+  - intros i. apply thread_prog_x_wb.
+  - intros Hk i. destruct k; cbn in H; try discriminate; [|contradiction].
+    apply andb_true_iff in H. destruct H as [_ H]. apply thread_prog_x_flat; exact H.
+Qed.
+
+(* a call that does not raise is the call: the error-path programs extend the others *)
+Lemma thread_prog_x_plain : forall g fuel calls,
+  thread_prog_x g fuel (map (fun m => (m, None)) calls) = thread_prog g fuel calls.
+Proof.
+  intros g fuel calls. unfold thread_prog_x, thread_prog.
+  induction calls as [|c calls IH]; cbn [map flat_map]; [reflexivity|]. rewrite IH. reflexivity.
 Qed.
 
 (* the lock-discipline theorem: if the checks pass on a call graph then any
